@@ -26,8 +26,8 @@ HIST_RULE = ("hist driver: seeded random histories (login, proxied request with 
 
 MANAGER_SECTIONS = ['Manager/' + n for n in ('create', 'delete', 'deleteForExternalID', 'getOrRefresh', 'refresh', 'deleteForKey', 'update', 'acquireLock', 'readerGet', 'getForTicket', 'redisRead', 'redisWrite', 'redisUpdate', 'redisDelete', 'redisMakeLock', 'memoryUpdate', 'memoryMakeLock', 'redisLockAcquire', 'redisLockRelease')] + \
     ['pkg/session/session_manager.go', 'pkg/session/session_reader.go', 'pkg/session/store_redis.go', 'pkg/session/store_memory.go', 'pkg/session/lock.go']
-HANDLER_SECTIONS = ['Handlers/' + n for n in ('getSession', 'logout', 'logoutLocal', 'logoutCallback', 'logoutFrontChannel', 'sessionInfo', 'sessionRefresh', 'sessionForwardAuth', 'handleGetSessionError', 'loginCallback', 'proxyGetSession', 'proxyHandler', 'getSessionWithValidToken')] + \
-    ['pkg/handler/handler.go', 'pkg/handler/handler_sso_proxy.go', 'pkg/handler/reverseproxy.go']
+HANDLER_SECTIONS = ['Handlers/' + n for n in ('getSession', 'logout', 'logoutLocal', 'logoutCallback', 'logoutFrontChannel', 'sessionInfo', 'sessionRefresh', 'sessionForwardAuth', 'handleGetSessionError', 'loginCallback', 'proxyGetSession', 'proxyHandler', 'getSessionWithValidToken', 'handleAutologin', 'proxyGetSSOServerURL', 'proxyLogin', 'proxyLoginCallback', 'proxyLogout', 'proxyLogoutCallback', 'proxyLogoutFrontChannel', 'proxyLogoutLocal', 'proxySession', 'proxySessionRefresh', 'proxySessionForwardAuth', 'proxyWildcard', 'serverLogout', 'serverLogoutFrontChannel', 'serverLogoutLocal', 'serverWildcard')] + \
+    ['pkg/handler/handler.go', 'pkg/handler/handler_sso_proxy.go', 'pkg/handler/handler_sso_server.go', 'pkg/handler/reverseproxy.go']
 HANDLER_TIE = (" Every control-flow path through the real logout / session / reverse-proxy handlers is enumerated from a statement-by-statement translation regenerated on each run (Gen/Handlers) and "
                "the kernel decides, over ALL paths, what the handler model assumes (Proofs/GenTie/Handlers): success answers only after the lookup-error guard and the delete, cookies cleared with the request's options first, "
                "the upstream token set only when the validated lookup and the ACR gate passed, and always then.")
@@ -63,8 +63,8 @@ PROPS = {
         'assumptions': ["H-AEAD", "H-CLOCK"],
     },
     'C02': {
-        'proofs': ['Ww.Proofs.C02'],
-        'gen_sections': [],
+        'proofs': ['Ww.Proofs.C02', 'Ww.Proofs.GenTie.Handlers'],
+        'gen_sections': HANDLER_SECTIONS + [],
         'drivers': [{'name': 'c02'}],
         'reasons': ['C02.'],
         'class_fields': {},
@@ -74,7 +74,7 @@ PROPS = {
                 "quick = all single and pairwise deviations + a sample of higher ones, thorough = full product; fresh login attempts per case (two interleaved attempts). distinct = lattice point; non-trivial = a cookie was presented or the provider was called.",
         'level_text': "Proof: for every cookie condition and every query, the callback model makes a back-channel call only if the cookie is authentic AND was minted by Login (a logout or session ciphertext decodes "
                       "to an incomplete LoginCookie and is refused), there is no error parameter, state is present and equal to the cookie's, iss equals the issuer when advertised - and the call carries exactly the "
-                      "cookie's verifier and redirect URI; otherwise no call is made. The model is tied to the real handler by the full lattice; the Spec is evaluated on the provider's request log and the store key set.",
+                      "cookie's verifier and redirect URI; otherwise no call is made. The model is tied to the real handler by the full lattice; the Spec is evaluated on the provider's request log and the store key set." + HANDLER_TIE,
         'level_note': "Trusted: Lean kernel; AEAD authenticity (an authentic ciphertext was produced by one of this deployment's three EncryptAndSet sites); encoding/json struct decoding rule (modelled in Minted.asLoginCookie, tied by the cookie-swap cases); ID-token checks are C03.",
         'technique': 'Lean 4 proof of the decision chain (cookie-type reasoning under symbolic AEAD) + exhaustive lattice correspondence against the real callback handler',
         'trusted': ["H-AEAD", "encoding/json decoding rule"],
@@ -183,8 +183,8 @@ PROPS = {
         'assumptions': ["faults occur at store-command / provider-call boundaries"],
     },
     'C12': {
-        'proofs': ['Ww.Proofs.C12', 'Ww.Proofs.GenTie.C12'],
-        'gen_sections': ['Dec/needsLogin', 'pkg/handler/autologin/autologin.go'],
+        'proofs': ['Ww.Proofs.C12', 'Ww.Proofs.GenTie.C12', 'Ww.Proofs.GenTie.Handlers'],
+        'gen_sections': HANDLER_SECTIONS + ['Dec/needsLogin', 'pkg/handler/autologin/autologin.go'],
         'drivers': [{'name': 'c12'}],
         'reasons': ['C12.'],
         'class_fields': {'glob': ['dm'], 'needslogin': ['nl'], 'alog': ['method', 'nav', 'authed', 'status', 'fwd', 'hasloc', 'prefix']},
@@ -194,7 +194,7 @@ PROPS = {
                 "distinct = (line kind, outcome fields); every case is non-trivial (a decision is made).",
         'level_text': "Proof: the executable glob matcher is proved equal to the declarative documented semantics (`*` within a segment, `**` spanning segments) for ALL patterns and paths; "
                       "NeedsLogin = false for an unauthenticated request iff some pattern Matches the path.Clean-ed path, which never contains a dot segment; the handler forwards an unauthenticated "
-                      "request only if ignored. doublestar itself and the handler wiring are tied by differential runs (incl. the real router) and the Spec is evaluated on every implementation answer.",
+                      "request only if ignored. doublestar itself and the handler wiring are tied by differential runs (incl. the real router) and the Spec is evaluated on every implementation answer." + HANDLER_TIE,
         'level_note': "Trusted: Lean kernel; doublestar modelled for the alphabet {literal,*,**,/} and for pattern tails it compares literally at end-of-name (see DESIGN Appendix C: ***, x*/**, trailing slash are outside the contract and skipped); "
                       "net/url path decoding; chi routing (C15). NeedsLogin is machine-translated from autologin.go on each run (memo cache dropped) and PROVED to have the model's decision structure for any path.Clean / matcher (Ww.Proofs.GenTie.C12).",
         'technique': 'Lean 4 proof (matcher = inductive relation, by induction on patterns) + differential runs against doublestar / NeedsLogin / router',
@@ -238,8 +238,8 @@ PROPS = {
         'assumptions': ["H-BROWSER"],
     },
     'C17': {
-        'proofs': ['Ww.Proofs.C17', 'Ww.Proofs.GenTie.C17'],
-        'gen_sections': ['Consts', 'Dec/retryCondition', 'Dec/nextRetryValue', 'pkg/handler/error.go'],
+        'proofs': ['Ww.Proofs.C17', 'Ww.Proofs.GenTie.C17', 'Ww.Proofs.GenTie.Handlers'],
+        'gen_sections': HANDLER_SECTIONS + ['Consts', 'Dec/retryCondition', 'Dec/nextRetryValue', 'pkg/handler/error.go'],
         'drivers': [{'name': 'cook'}],
         'reasons': ['C17.'],
         'class_fields': {'setcookie': ['op', 'class', 'clear'], 'jar': ['after'], 'retrychain': ['cause', 'statuses', 'sso'], 'retryreset': ['via', 'before', 'after'],
@@ -249,7 +249,7 @@ PROPS = {
                 "success after failures (login, logout callback); rate limit grid enabled x logins {0,1,2,5} x window {0.5,1,5,90 s} x with/without session with the jar clock moved past the window. distinct = (cause/config, status sequence).",
         'level_text': "Proof: from any counter a browser can hold, at most three consecutive failures are answered with the retry redirect and the error page is terminal (induction over the failure run with a budget function; bound = the constant "
                       "regenerated from error.go); 429 is never retried; with a session exactly `logins` visits pass and all further ones are 429 (for every logins, by induction), the counter is untouched by a 429; off/without session never 429. "
-                      "Model tied to the real handlers by following the chains.",
+                      "Model tied to the real handlers by following the chains." + HANDLER_TIE,
         'level_note': "Trusted: Lean kernel; H-BROWSER (the retry cookie comes back: scope checked by C14 and by the chains). A host outside the SSO cookie domain makes the browser drop the counter cookie (endless 307): outside the quantifier, see DESIGN. The retry condition and the counter increment are machine-translated from error.go on each run and the model's retryStep is PROVED equal to them (Ww.Proofs.GenTie.C17).",
         'technique': 'Lean 4 induction over failure runs / login runs of the counter state machines + chain-following differential runs',
         'trusted': ["H-BROWSER"],
@@ -276,8 +276,8 @@ PROPS = {
         'assumptions': ["chi routes on RawPath when set, else Path"],
     },
     'C16': {
-        'proofs': ['Ww.Proofs.C16'],
-        'gen_sections': ['Routes', 'Facts', 'pkg/router/router.go'],
+        'proofs': ['Ww.Proofs.C16', 'Ww.Proofs.GenTie.C16'],
+        'gen_sections': HANDLER_SECTIONS + ['Routes', 'Facts', 'pkg/router/router.go'],
         'drivers': [{'name': 'c16'}, {'name': 'hist'}, {'name': 'cook'}],
         'reasons': ['C16.'],
         'class_fields': _merge(HIST_CLASS, {'cors': ['dom', 'corsep', 'preflight', 'acac', 'status'], 'proxycmds': ['op', 'status', 'cmds'], 'setcookie': ['sso', 'ssodomain', 'op', 'class', 'clear', 'domain', 'path']}),
@@ -286,7 +286,7 @@ PROPS = {
                 "SSO-server router; an SSO proxy and server on one miniredis with every command attributed by client name while the proxy serves 13 operations over shifted clocks. hist driver: sso-proxy and sso-server histories.",
         'level_text': "Proof: for EVERY origin string and domain spelling, corsAllows implies the lower-cased origin is https:// followed by the SSO domain or something ending in '.'+domain (string theorem); "
                       "structural theorems (decide over regenerated facts): the SSOProxy type holds only a session Reader and its methods call no mutating/provider operation, the server wildcard only redirects; "
-                      "behavioural theorem on the handler model: a proxied request in proxy mode never contacts the provider nor changes the store. rs/cors matching is modelled and tied; the dynamic command log ties the rest.",
+                      "behavioural theorem on the handler model: a proxied request in proxy mode never contacts the provider nor changes the store. rs/cors matching is modelled and tied; the dynamic command log ties the rest." + HANDLER_TIE,
         'level_note': "Trusted: Lean kernel; rs/cors v1.11.1 wildcard rule (modelled, differential); browsers send Origin as scheme://host[:port] (values with / ? # @ are outside the quantifier); static call facts are by name (over-approximate).",
         'technique': 'Lean 4 string theorem for the CORS rule + decide over regenerated structural facts + differential/command-log runs',
         'trusted': ["rs/cors wildcard contract", "H-BROWSER (Origin syntax)"],
